@@ -534,37 +534,45 @@ func genTurochamp(o *Out, r *rand.Rand, thorough bool) {
 			o.Count("tc:HARNESS-PROBLEM")
 		}
 		// colour-blindness on the real code: the mirrored, colour-swapped line
-		if strings.Count(start, " ") == 5 && b.Position().Piece(board.White, board.King) != 0 && b.Position().Piece(board.Black, board.King) != 0 {
-			var mm []string
-			for _, m := range moves {
-				mm = append(mm, "m:"+mirrorMove(strings.TrimPrefix(m, "m:")))
-			}
-			mb := boardFromLine(mirrorFEN(start), mm)
-			ctx := context.Background()
-			if float32(turochamp.Eval{}.Evaluate(ctx, b)) == float32(turochamp.Eval{}.Evaluate(ctx, mb)) {
-				o.Count("tc:mirror-eval-equal")
-			} else {
-				o.Count("tc:MIRROR-EVAL-DIFFERS")
-				tcStat.witness = append(tcStat.witness, "EVAL-NOT-COLOURBLIND "+line)
-			}
-			if float32(turochamp.Material{}.Evaluate(ctx, b)) != float32(turochamp.Material{}.Evaluate(ctx, mb)) {
-				o.Count("tc:MIRROR-MATERIAL-DIFFERS")
-			}
-			// PositionPlay summed in insertion order (what the model computes) on both boards
-			for _, c := range []board.Color{board.White, board.Black} {
-				pa, pb := tcPre(b, c), tcPre(mb, c.Opponent())
-				sa, _, _ := tcSums(pa)
-				sb, _, _ := tcSums(pb)
-				va, vb := tcPost(b, c, sa, nil), tcPost(mb, c.Opponent(), sb, nil)
-				if va == vb {
-					o.Count("tc:mirror-pp-insertion-order-equal")
+		if strings.Count(start, " ") == 5 && b.Position().Piece(board.White, board.King) != 0 && b.Position().Piece(board.Black, board.King) != 0 && res != "panic" {
+			func() {
+				defer func() {
+					if e := recover(); e != nil { // the op above compares the evaluation with the model; a panic only on the mirrored board is a witness of its own
+						o.Count("tc:MIRROR-EVAL-PANICS")
+						tcStat.witness = append(tcStat.witness, "EVAL-PANICS-ON-MIRROR "+line)
+					}
+				}()
+				var mm []string
+				for _, m := range moves {
+					mm = append(mm, "m:"+mirrorMove(strings.TrimPrefix(m, "m:")))
+				}
+				mb := boardFromLine(mirrorFEN(start), mm)
+				ctx := context.Background()
+				if float32(turochamp.Eval{}.Evaluate(ctx, b)) == float32(turochamp.Eval{}.Evaluate(ctx, mb)) {
+					o.Count("tc:mirror-eval-equal")
 				} else {
-					o.Count("tc:mirror-pp-insertion-order-differs")
-					if len(tcStat.mirrorWitness) < 4 {
-						tcStat.mirrorWitness = append(tcStat.mirrorWitness, fmt.Sprintf("%s | PositionPlay(%v) insertion order: %s, mirrored board: %s", line, c, fmt32(va), fmt32(vb)))
+					o.Count("tc:MIRROR-EVAL-DIFFERS")
+					tcStat.witness = append(tcStat.witness, "EVAL-NOT-COLOURBLIND "+line)
+				}
+				if float32(turochamp.Material{}.Evaluate(ctx, b)) != float32(turochamp.Material{}.Evaluate(ctx, mb)) {
+					o.Count("tc:MIRROR-MATERIAL-DIFFERS")
+				}
+				// PositionPlay summed in insertion order (what the model computes) on both boards
+				for _, c := range []board.Color{board.White, board.Black} {
+					pa, pb := tcPre(b, c), tcPre(mb, c.Opponent())
+					sa, _, _ := tcSums(pa)
+					sb, _, _ := tcSums(pb)
+					va, vb := tcPost(b, c, sa, nil), tcPost(mb, c.Opponent(), sb, nil)
+					if va == vb {
+						o.Count("tc:mirror-pp-insertion-order-equal")
+					} else {
+						o.Count("tc:mirror-pp-insertion-order-differs")
+						if len(tcStat.mirrorWitness) < 4 {
+							tcStat.mirrorWitness = append(tcStat.mirrorWitness, fmt.Sprintf("%s | PositionPlay(%v) insertion order: %s, mirrored board: %s", line, c, fmt32(va), fmt32(vb)))
+						}
 					}
 				}
-			}
+			}()
 		}
 	}
 	for _, f := range tcCurated {
